@@ -4,6 +4,7 @@ import (
 	"context"
 	"encoding/json"
 	"fmt"
+	"reflect"
 	"runtime"
 	"strings"
 	"time"
@@ -42,10 +43,12 @@ type Op struct {
 }
 
 type Case struct {
-	Max      int    `json:"max"`
-	Ops      []Op   `json:"ops"`
-	Origin   string `json:"origin,omitempty"`
-	PostWait int    `json:"post_wait_ms,omitempty"`
+	Max       int    `json:"max"`
+	Ops       []Op   `json:"ops"`
+	Origin    string `json:"origin,omitempty"`
+	PostWait  int    `json:"post_wait_ms,omitempty"`
+	FailWrite int    `json:"fail_write,omitempty"` // the k-th socket write and all later ones fail
+	FailMode  string `json:"fail_mode,omitempty"`  // "error" (default) | "close" (websocket.CloseError)
 }
 
 // Snapshot of what the client of one subscription should hold at a quiescent point.
@@ -119,10 +122,13 @@ type view struct {
 	cancelled   bool
 	closeAllIdx int
 	curMsg      int
+	broken      bool        // a socket write has failed: the client is gone
+	registered  map[int]int // resource -> generation that registered it
+	cleanups    map[int]int // resource -> number of Cleanup calls
 }
 
 func analyze(evs []Event) *view {
-	v := &view{runs: map[int]*runInfo{}, cur: map[string]int{}, closeAllIdx: -1, curMsg: -1}
+	v := &view{runs: map[int]*runInfo{}, cur: map[string]int{}, closeAllIdx: -1, curMsg: -1, registered: map[int]int{}, cleanups: map[int]int{}}
 	for i, e := range evs {
 		if e.Late && e.Kind != "cut" {
 			// still analysed: the oracles look at late events separately
@@ -211,6 +217,17 @@ func analyze(evs []Event) *view {
 				}
 				if r.ExpectSpawn {
 					g.Dead = true
+				}
+			}
+		case "register":
+			v.registered[e.Res] = e.Gen
+		case "cleanup":
+			v.cleanups[e.Res]++
+		case "writefail":
+			v.broken = true
+			if e.Run >= 0 {
+				if r := v.runs[e.Run]; r != nil {
+					r.Written, r.WriteIdx = true, i
 				}
 			}
 		case "write":
@@ -312,6 +329,27 @@ func (p *player) waitFor(what string, cond func(*view) (bool, string)) bool {
 	return false
 }
 
+// waitShort waits up to 3 s without reporting: what is still missing is for the oracle to say.
+func (p *player) waitShort(what string, cond func(*view) (bool, string)) bool {
+	deadline := time.Now().Add(3 * time.Second)
+	for {
+		evs, ch := p.rec.Snapshot()
+		if ok, _ := cond(analyze(evs)); ok {
+			return true
+		}
+		left := time.Until(deadline)
+		if left <= 0 {
+			return false
+		}
+		t := time.NewTimer(left)
+		select {
+		case <-ch:
+		case <-t.C:
+		}
+		t.Stop()
+	}
+}
+
 func (p *player) handled(v *view) (bool, string) {
 	if v.served {
 		return true, ""
@@ -333,6 +371,9 @@ func (p *player) quiescent(v *view) (bool, string) {
 	}
 	if v.spawned != v.asyncDone && len(p.releases) == 0 {
 		return false, fmt.Sprintf("%d close tasks spawned, %d done", v.spawned, v.asyncDone)
+	}
+	if n := p.w.ShortTimers(); n > 0 {
+		return false, fmt.Sprintf("%d short timers are armed", n)
 	}
 	if v.cancelled {
 		return true, ""
@@ -376,9 +417,17 @@ func (p *player) clientLive(g *genInfo) bool {
 func (p *player) snapshot(at int) {
 	evs, _ := p.rec.Snapshot()
 	v := analyze(evs)
-	if v.cancelled {
+	if v.cancelled || v.broken {
 		return
 	}
+	before := p.w.Versions()
+	first := len(p.res.Snaps)
+	defer func() {
+		// data changed by itself (a timer) while the expected values were computed: not a quiescent point
+		if !reflect.DeepEqual(before, p.w.Versions()) || p.w.ShortTimers() > 0 {
+			p.res.Snaps = p.res.Snaps[:first]
+		}
+	}()
 	for _, g := range v.gens {
 		if !p.clientLive(g) || g.Msg < 0 || g.Msg >= len(p.res.Fed) {
 			continue
@@ -463,6 +512,9 @@ func (p *player) play(i int, o Op) {
 		p.w.SetFail(o.Field, o.N, o.Mode)
 		p.rec.add(Event{Kind: "touch", Field: o.Field})
 		p.w.Touch(o.Field, false)
+	case "tickarm":
+		p.w.ArmTicks(o.N)
+		return
 	case "cancel":
 		p.rec.add(Event{Kind: "cancel"})
 		p.cancel()
@@ -542,6 +594,7 @@ func RunCase(c Case, timeout time.Duration) (res *Result) {
 	rec := NewRecorder()
 	w := NewWorld(rec)
 	sock := NewSock(rec)
+	sock.FailWrite, sock.FailMode = c.FailWrite, c.FailMode
 	ctx, cancel := context.WithCancel(context.Background())
 	defer cancel()
 	res = &Result{Case: c}
@@ -592,6 +645,15 @@ func RunCase(c Case, timeout time.Duration) (res *Result) {
 			return false, why
 		}
 		return v.spawned == v.asyncDone, fmt.Sprintf("%d close tasks spawned, %d done", v.spawned, v.asyncDone)
+	})
+	// releases are asynchronous: let every registered resource get its Cleanup call
+	p.waitShort("resources released", func(v *view) (bool, string) {
+		for res := range v.registered {
+			if v.cleanups[res] == 0 {
+				return false, fmt.Sprintf("resource %d (generation %d) has had no Cleanup call", res, v.registered[res])
+			}
+		}
+		return true, ""
 	})
 	// provoke anything that still lives: change and invalidate everything, then wait
 	rec.Cut()
